@@ -3,14 +3,14 @@ into a MiniGo program (lib/minigo.py).  The step table STEPS is the single sourc
 steps.ndjson for ProgSpace.tla (name, input type-state, output type-state, family).
 
 Type-states of the value currently carrying the datum (DESIGN.md Appendix D):
-  S string | B []byte | P *box(.s) | PP *box(.p.s) | PS *string | ST box(.s) | PR pair(.a.s) | SL []string[0] |
+  S string | B []byte | P *box(.s) | PP *box(.p.s) | PS *string | ST box(.s) | SP box(.p = the pointer) | PR pair(.a.s) | SL []string[0] |
   AR [2]string[0] | M map val | MK map key | I any(string) | IB any(*box) | IF getter | C func() string |
   G global string | GP global *box | CH chan string
 """
 import minigo
 
 TYPES = {
-    "S": "string", "B": "[]byte", "P": "*box", "PP": "*box", "PS": "*string", "ST": "box", "PR": "pair",
+    "S": "string", "B": "[]byte", "P": "*box", "PP": "*box", "PS": "*string", "ST": "box", "SP": "box", "PR": "pair",
     "SL": "[]string", "AR": "[2]string", "M": "map[string]string", "MK": "map[string]string", "I": "any",
     "IB": "any", "IF": "getter", "C": "func() string", "CH": "chan string",
 }
@@ -208,6 +208,20 @@ def s_structcopy(e, x):
 
 def s_mkstruct(e, x):
     y = e.out("ST"); e.f.fstore(y, "s", x); return y
+
+
+def s_wrapp(e, x):
+    # whole-value assignment of a struct literal holding the pointer: under then/else the variable stays an SSA
+    # register and the join is a struct-typed phi
+    y = e.out("SP"); e.f.stlit(y, "p", x); return y
+
+
+def s_unwrapp(e, x):
+    y = e.out("P"); e.f.fload(y, x, "p"); return y
+
+
+def s_spcopy(e, x):
+    y = e.out("SP"); e.f.copy(y, x); return y
 
 
 def s_field(e, x):
@@ -745,6 +759,9 @@ STEPS = {
     "structcopy": ("P", "P", "field", s_structcopy),
     "mkstruct": ("S", "ST", "field", s_mkstruct),
     "field": ("ST", "S", "field", s_field),
+    "wrapp": ("P", "SP", "field", s_wrapp),
+    "unwrapp": ("SP", "P", "field", s_unwrapp),
+    "spcopy": ("SP", "SP", "field", s_spcopy),
     "stcopy": ("ST", "ST", "field", s_stcopy),
     "staddr": ("ST", "P", "field", s_staddr),
     "pairnest": ("ST", "PR", "field", s_pairnest),
@@ -825,7 +842,7 @@ STEPS = {
 FLOW_FAMS = sorted({v[2] for v in STEPS.values()} - {"role"})
 
 # type-states whose carrier can be handed to sink() with the datum reachable from it
-SINKABLE = {"S", "B", "P", "PP", "PS", "ST", "PR", "SL", "AR", "M", "MK", "I", "IB", "IF", "G", "GP"}
+SINKABLE = {"S", "B", "P", "PP", "PS", "ST", "SP", "PR", "SL", "AR", "M", "MK", "I", "IB", "IF", "G", "GP"}
 
 DECORATIONS = ["plain", "then", "else", "loop", "helper", "iife", "killafter"]
 
